@@ -1299,7 +1299,8 @@ fn run_case(env: &Env, lane: &Lane, case: &Value, seed: u64, idx: u64, variant: 
     CaseOutcome { class, verdicts, cobs, bobs, conc_desc: conc.desc.clone(), sent }
 }
 
-fn replay(seed: u64, nlanes: usize, backend_kind: &'static str, variants: u64, deviations: String, sample_pct: u64) {
+#[allow(clippy::too_many_arguments)]
+fn replay(seed: u64, nlanes: usize, backend_kind: &'static str, variants: u64, deviations: String, sample_pct: u64, force: Option<(u64, u64)>) {
     let stop = Arc::new(AtomicBool::new(false));
     let (mut w, env, lanes) = setup(nlanes, backend_kind, stop.clone());
     let env = Arc::new(env);
@@ -1333,10 +1334,12 @@ fn replay(seed: u64, nlanes: usize, backend_kind: &'static str, variants: u64, d
                     if wide && !h.chance(sample_pct) { continue; }
                 }
                 for variant in 0..variants {
-                    let mut o = run_case(&env, &lane, case, seed, i as u64, variant, &deviations);
+                    // --force-index/--force-variant: re-run one recorded violation with the very same concretisation
+                    let (ci, variant) = match force { Some((fi, fv)) => (fi, fv), None => (i as u64, variant) };
+                    let mut o = run_case(&env, &lane, case, seed, ci, variant, &deviations);
                     // a hang (no answer within the wait) is retried once before it counts
-                    if o.class == "hang" {
-                        o = run_case(&env, &lane, case, seed, i as u64, variant + 1000, &deviations);
+                    if o.class == "hang" && force.is_none() {
+                        o = run_case(&env, &lane, case, seed, ci, variant + 1000, &deviations);
                     }
                     // 502/503/504 with nothing written to a backend: sozu's circuit breaker / retry policy holds the lane's
                     // backend for unavailable after earlier connections were cut by the (strict) backend. Not an answer about
@@ -1346,7 +1349,7 @@ fn replay(seed: u64, nlanes: usize, backend_kind: &'static str, variants: u64, d
                         tries += 1;
                         n_retries.fetch_add(1, Ordering::Relaxed);
                         std::thread::sleep(Duration::from_millis(120 * tries));
-                        o = run_case(&env, &lane, case, seed, i as u64, variant + 2000 * tries, &deviations);
+                        o = run_case(&env, &lane, case, seed, ci, variant + if force.is_some() { 0 } else { 2000 * tries }, &deviations);
                     }
                     if matches!(o.class.as_str(), "r502" | "r503" | "r504") && o.bobs.reqs.is_empty() && o.bobs.raw.iter().all(|r| r.2.is_empty()) {
                         o.class = "unavailable".into();
@@ -1354,7 +1357,16 @@ fn replay(seed: u64, nlanes: usize, backend_kind: &'static str, variants: u64, d
                     }
                     n_probes.fetch_add(1, Ordering::Relaxed);
                     *classes.lock().unwrap().entry(format!("{}:{}", case["c"]["front"].as_str().unwrap(), o.class)).or_insert(0) += 1;
-                    distinct.lock().unwrap().insert(format!("{}|{}", case["c"], o.class));
+                    // non-trivial = differs from the plain valid skeleton in at least one token
+                    let c = &case["c"];
+                    let trivial = c["hdrs"].as_array().map(|a| a.is_empty()).unwrap_or(true)
+                        && (c["front"] == "h1" && c["rl"] == "ok" && c["host"] == "a" || c["front"] == "h2" && c["ps"] == "ok" && c["data"] == "es" && c["tr"] == "none");
+                    if !trivial { distinct.lock().unwrap().insert(format!("{}|{}", case["c"], o.class)); }
+                    if force.is_some() {
+                        vh::util::emit(&json!({"kind": "replayed", "case": case["c"], "sent": o.sent, "how": o.conc_desc, "observed_class": o.class,
+                            "client": {"statuses": o.cobs.statuses, "by": o.cobs.answered_by, "closed": o.cobs.closed, "timed_out": o.cobs.timed_out, "raw": o.cobs.raw},
+                            "backend": back_json(&o.bobs), "verdicts": o.verdicts.iter().map(|v| v.class.clone()).collect::<Vec<_>>()}));
+                    }
                     if i % 641 == 7 && variant == 0 {
                         let mut s = samples.lock().unwrap();
                         if s.len() < 6 { s.push(json!({"case": case["c"], "sent": o.sent.chars().take(300).collect::<String>(), "how": o.conc_desc, "observed_class": o.class, "backend_read": o.bobs.reqs.iter().map(|r| format!("{} {} host={} {} len={}", r.method, r.target, r.host, r.framing, r.body_len)).collect::<Vec<_>>()})); }
@@ -1407,6 +1419,8 @@ fn main() {
     let mut variants: u64 = 1;
     let mut deviations = String::new();
     let mut sample_pct: u64 = 100;
+    let mut force_index: Option<u64> = None;
+    let mut force_variant: u64 = 0;
     let mut i = 1;
     while i < args.len() {
         match args[i].as_str() {
@@ -1416,6 +1430,8 @@ fn main() {
             "--variants" => { variants = args[i + 1].parse().unwrap_or(1); i += 1; }
             "--deviations" => { deviations = args[i + 1].clone(); i += 1; }
             "--sample-pct" => { sample_pct = args[i + 1].parse().unwrap_or(100); i += 1; }
+            "--force-index" => { force_index = args[i + 1].parse().ok(); i += 1; }
+            "--force-variant" => { force_variant = args[i + 1].parse().unwrap_or(0); i += 1; }
             "--backend" => { backend_kind = if args[i + 1] == "h2c" { "h2c" } else { "h1" }; i += 1; }
             _ => {}
         }
@@ -1439,6 +1455,7 @@ fn main() {
         std::process::exit(0);
     }
     drop(stop);
-    replay(seed, nlanes, backend_kind, variants, deviations, sample_pct);
+    let force = force_index.map(|fi| (fi, force_variant));
+    replay(seed, nlanes, backend_kind, variants, deviations, sample_pct, force);
     std::process::exit(0);
 }
